@@ -4,7 +4,7 @@
        state, so every interleaving at critical-section boundaries is covered; report
        deliveries commute (C02).  Statements only. *)
 From Coq Require Import ZArith List Bool String Permutation.
-From GCA Require Import Wrap Bytes Codec Amap Timeslot Server ServerInv ServerReach_lemmas ServerC02_lemmas
+From GCA Require Import Wrap Bytes Codec Amap Timeslot Server ServerInv ServerDisk ServerReach_lemmas ServerFull_lemmas ServerC02_lemmas
                         Skel SkelSpec Skel_lemmas SkelObligations.
 From GCAgen Require SkelServer.
 Import ListNotations.
@@ -42,10 +42,10 @@ Section C13.
 
   (* any schedule of critical sections, with arbitrary captured arguments (e.g. the impact job's
      device id captured before the device was banned), keeps the invariant and never panics *)
-  Theorem c13_sections_safe ops st : MemInv (mm st) -> Forall op_ok_nr ops ->
-    MemInv (mm (Server.run verify sign stats_sb st ops)) /\
+  Theorem c13_sections_safe ops st : Inv verify st -> Forall op_ok ops ->
+    Inv verify (Server.run verify sign stats_sb st ops) /\
     Forall (fun o => o <> Server.Panic) (outs verify sign stats_sb st ops).
-  Proof. exact (run_inv_nr verify sign stats_sb ops st). Qed.
+  Proof. exact (run_inv verify sign stats_sb ops st). Qed.
 
   (* the outcome of delivering a multiset of reports to a slot does not depend on arrival order *)
   Theorem c13_order_independent cap rs rs' : Forall valid_power rs -> Permutation rs rs' ->
